@@ -24,32 +24,32 @@
 (* stop gate leaves no trace at all: holding it shorter only enables more, so the most         *)
 (* permissive placement (entered with the response's log line, left when it is written) makes  *)
 (* it a no-op here; it is checked on the model only.                                           *)
-(* Lenient = TRUE additionally accepts, at a Quiesce, the one known way the pinned tree loses  *)
-(* a stop (Breakpoint stop dropped for a generation mismatch, nothing resumes): a run that is  *)
-(* rejected strictly and accepted leniently is exactly an instance of that finding.            *)
+(* Two findings on the pinned tree have a switch each; a run that is rejected strictly and     *)
+(* accepted with exactly one switch on is an instance of exactly that finding:                 *)
+(*   LenientGenDrop  accepts, at a Quiesce, the hook waiting in a Breakpoint stop that the      *)
+(*                   coordinator dropped for a generation mismatch (nothing resumes, no event) *)
+(*   LenientOrder    accepts a stopped event that precedes, on the wire, the response of the    *)
+(*                   continue / step that resumed the runtime before that stop (the gate is    *)
+(*                   entered after the resuming action)                                        *)
 EXTENDS DapStop, Json, IOUtils
-CONSTANT Lenient
+CONSTANTS LenientGenDrop, LenientOrder
 Rec == ndJsonDeserialize(IOEnv.TRACE)
-VARIABLES l, curStop, genDropped
-tvars == <<l, curStop, genDropped, vars>>
+\* The recorded runs are independent: every run is an initial state of its own (it starts at its Reset event and
+\* ends before the next one), and the furthest event some behaviour of run r consumed is kept in TLC register r
+\* (needs -workers 1).  One pass therefore judges every run, however many of them are rejected.
+Starts == SelectSeq([i \in 1..Len(Rec) |-> i], LAMBDA i : Rec[i].a = "Reset")
+NRuns == Len(Starts)
+VARIABLES l, run, curStop, genDropped
+tvars == <<l, run, curStop, genDropped, vars>>
 E == Rec[l]
-More == l <= Len(Rec)
-ASSUME TLCSet(1, 0)
+More == l <= Len(Rec) /\ Rec[l].a # "Reset"
+ASSUME \A r \in 1..NRuns : TLCSet(r, 0)
 
-Reason(r) == r   \* the harness already writes Breakpoint / Step / Pause / Entry
+TInit == \E r \in 1..NRuns :
+           /\ run = r /\ l = Starts[r] + 1 /\ curStop = NoStop /\ genDropped = 0
+           /\ InitWith(Rec[Starts[r]].entry, Rec[Starts[r]].gen, Rec[Starts[r]].nbps)
 
-TInit == /\ l = 2 /\ Rec[1].a = "Reset" /\ curStop = NoStop /\ genDropped = 0
-         /\ InitWith(Rec[1].entry, Rec[1].gen, Rec[1].nbps)
-TReset ==
-  /\ E.a = "Reset" /\ l' = l + 1 /\ curStop' = NoStop /\ genDropped' = 0
-  /\ mode' = (IF E.entry THEN "Paused" ELSE "Running") /\ pending' = (IF E.entry THEN "Entry" ELSE "none")
-  /\ stepOn' = FALSE /\ bpGen' = E.gen /\ bpN' = E.nbps /\ rt' = "run" /\ stopId' = 0
-  /\ chan' = <<>> /\ cpc' = "recv" /\ cstop' = NoStop /\ PE' = E.entry /\ gate' = 0
-  /\ mpc' = "idle" /\ mreq' = NoReq /\ mgate' = FALSE
-  /\ inq' = <<>> /\ wire' = <<>> /\ nreq' = 0 /\ outstanding' = {} /\ view' = "running" /\ shown' = 0
-  /\ disc' = TRUE /\ acts' = 0 /\ answered' = 0 /\ delivered' = <<>> /\ orderBad' = FALSE /\ resumeDue' = FALSE
-
-Keep == UNCHANGED <<curStop, genDropped>>
+Keep == UNCHANGED <<run, curStop, genDropped>>
 Step1 == l' = l + 1
 Silent == UNCHANGED l /\ Keep
 
@@ -114,7 +114,7 @@ TLogResponse ==
 
 \* ------------------------------------------------------------------ cycle thread
 TRtStop ==
-  /\ E.a = "RtStop" /\ Step1 /\ UNCHANGED genDropped
+  /\ E.a = "RtStop" /\ Step1 /\ UNCHANGED <<run, genDropped>>
   /\ RStop(E.reason, E.th, E.line)
   /\ E.gen = (IF E.reason = "Breakpoint" THEN bpGen ELSE -1)
   /\ curStop' = chan'[Len(chan')]
@@ -135,7 +135,7 @@ TCEmit ==
   /\ E.a = "CEmit" /\ Step1 /\ Keep /\ cpc = "emit" /\ SameStop(cstop) /\ cpc' = "emitL"
   /\ UNCHANGED <<rtvars, chan, cstop, PE, gate, mvars, inq, wire, clvars, acts, answered, delivered, orderBad, resumeDue>>
 TCDrop ==
-  /\ E.a = "CDrop" /\ Step1 /\ UNCHANGED curStop /\ SameStop(cstop)
+  /\ E.a = "CDrop" /\ Step1 /\ UNCHANGED <<run, curStop>> /\ SameStop(cstop)
   /\ \/ /\ E.why = "pause_expected" /\ cpc = "dropPE" /\ cpc' = "recv" /\ cstop' = NoStop /\ UNCHANGED genDropped
      \/ /\ E.why = "generation" /\ cpc = "dropGen" /\ cpc' = "dropGenL" /\ cstop' = NoStop /\ genDropped' = cstop.id
   /\ UNCHANGED <<rtvars, chan, PE, gate, mvars, inq, wire, clvars, acts, answered, delivered, orderBad, resumeDue>>
@@ -153,20 +153,22 @@ TQuiesce ==
           \* ... with the right thread and location: the stopped event named the thread of the current stop and
           \* stackTrace for it answers with the statement the hook waits in
           /\ E.shownTh = curStop.th /\ (E.frames = -1 \/ E.frameLine = curStop.line)    \* frames = -1: the script did not ask
-       \/ Lenient /\ view = "running" /\ genDropped = stopId
+       \/ LenientGenDrop /\ view = "running" /\ genDropped = stopId
 TExit == /\ E.a = "Exit" /\ Step1 /\ Keep /\ UNCHANGED vars
          /\ E.code = 0 /\ mpc = "exit" /\ outstanding = {}
 
 \* invariants of the design, required of every state a run goes through (a step into a state that breaks one
-\* is not a step of the specification: the run is rejected at that event).  All three depend on logged
+\* is not a step of the specification: the run is rejected at that event).  All of them depend on logged
 \* events only, never on where TLC placed a silent step.
-StepInvariants == NoDuplicateStopped /\ NoStoppedAfterResume /\ WaitHasCause
-TStep == TReset \/ TSend \/ TRecvResponse \/ TRecvStopped \/ TTerminated \/ TRead \/ TPauseCheck \/ TSetPE \/ TAct \/ TSetBps
+StepInvariants == NoDuplicateStopped /\ NoStoppedAfterResume /\ WaitHasCause /\ (LenientOrder \/ ResponseBeforeLaterStop)
+TStep == TSend \/ TRecvResponse \/ TRecvStopped \/ TTerminated \/ TRead \/ TPauseCheck \/ TSetPE \/ TAct \/ TSetBps
          \/ TClearBps \/ TLogResponse \/ TRtStop \/ TRtWake \/ TRtResume \/ TCRecv \/ TCPE \/ TCGen \/ TCEmit \/ TCDrop
          \/ TLogStopped \/ TQuiesce \/ TExit
 TNext == More /\ TStep /\ StepInvariants'
 TSpec == TInit /\ [][TNext]_tvars
-HighWater == TLCSet(1, IF TLCGet(1) < l THEN l ELSE TLCGet(1))
-Post == JsonSerialize(IOEnv.OUT, [events |-> Len(Rec), consumed |-> TLCGet(1) - 1,
-                                  runs |-> Cardinality({i \in DOMAIN Rec : Rec[i].a = "Reset"})])
+HighWater == TLCSet(run, IF TLCGet(run) < l THEN l ELSE TLCGet(run))
+\* per run: index of its Reset event and of the first event no behaviour consumed (= start of the next run, or
+\* Len(Rec) + 1, if the run was consumed completely)
+Post == JsonSerialize(IOEnv.OUT, [events |-> Len(Rec), runs |-> NRuns, starts |-> Starts,
+                                  reached |-> [r \in 1..NRuns |-> TLCGet(r)]])
 =================================================================================
